@@ -247,11 +247,16 @@ type cmp struct {
 
 // normCmp normalises "cond == val" into a comparison (false if cond is not a comparison).
 func normCmp(cond ssa.Value, val bool) (cmp, bool) {
-	for {
+	for i := 0; i < 8; i++ {
 		u, ok := cond.(*ssa.UnOp)
 		if ok && u.Op == token.NOT {
 			cond = u.X
 			val = !val
+			continue
+		}
+		// the boolean result of a private helper / a local assigned once is the expression behind it
+		if o := origin(cond); o != cond {
+			cond = o
 			continue
 		}
 		break
@@ -324,11 +329,18 @@ func hasFactRec(in ssa.Instruction, pred func(f fact) bool, depth int) bool {
 // boolFact matches a fact on a boolean value (through negations).
 func boolFact(f fact, match func(v ssa.Value) bool, want bool) bool {
 	c, v := f.Cond, f.Val
-	for {
+	for i := 0; i < 8; i++ {
 		u, ok := c.(*ssa.UnOp)
 		if ok && u.Op == token.NOT {
 			c = u.X
 			v = !v
+			continue
+		}
+		if o := origin(c); o != c {
+			if v == want && match(c) {
+				return true
+			}
+			c = o
 			continue
 		}
 		break
